@@ -2,7 +2,7 @@
    (cycles_ref), and the executable domain predicates of properties C01-C08, C20 (the quantifier
    texts of /verif/properties.jsonl). *)
 From Coq Require Import Bool ZArith Lia List.
-From K Require Import Lib.Types Model.Machine Model.Bus Spec.MemMap Spec.Price Spec.ISA.
+From K Require Import Lib.Types Lib.Utf8 Model.Machine Model.Bus Spec.MemMap Spec.Price Spec.ISA.
 Import ListNotations.
 Open Scope bool_scope. Open Scope Z_scope.
 
@@ -222,6 +222,7 @@ Definition mes_body (s : cpu) : option cpu :=
     obind (mem_read SL s (arg + 8)) (fun len =>
     obind (mem_read SL s arg) (fun _ =>
     obind (bytes_at s buf (Z.to_nat len)) (fun bs =>
+    if negb (utf8_valid bs) then None else
     let s1 := set_console (console s ++ bs) next in
     Some (if sock s then set_bus (bset_msgs (b_msgs (cbus s1) ++ [MsgStdout bs]) (cbus s1)) s1 else s1)))))
   else if id =? 113 then
@@ -244,6 +245,7 @@ Definition dom_mes (s : cpu) : bool :=
        span_ok data_ok arg 12 &&
        match mem_read SL s (arg + 4), mem_read SL s (arg + 8) with
        | Some buf, Some len => (len <=? 4096) && (buf + len <? A24) && span_ok (fun a => in_ram a || in_dram a) buf len
+                               && match bytes_at s buf (Z.to_nat len) with Some bs => utf8_valid bs | None => false end
        | _, _ => false
        end
      else if id =? 113 then
